@@ -183,10 +183,34 @@ def rule_declsrc(ctx):
                             g["locals"][0]["ty"].startswith("&") and re.search(r"TypeDeclaration(<[^<>]*>)?$", g["locals"][0]["ty"])}))
     if not lookups:
         raise AnalysisError("R-DECLSRC: no function of core_lang returns a reference to a type declaration")
-    for key in ("core2axcut::statements::cut::shrink_unknown_cuts", "core2axcut::statements::cut::shrink_critical_pairs"):
-        fn = Fn(fx.fn(key))
+    # the functions that generate a (co)match from a declaration, by what they do: free functions of core2axcut that look a declaration
+    # up (directly or through one helper) and build a Switch resp. a Create (shrink_unknown_cuts / shrink_critical_pairs on the pinned tree)
+    def _calls_lookup(k_, depth=0):
+        for b_ in fx.fns[k_]["blocks"]:
+            t_ = b_["term"]
+            if t_["k"] != "call":
+                continue
+            if t_.get("callee_name") in lookups:
+                return True
+            k2_ = t_.get("resolved_key") or t_.get("callee_key")
+            if depth < 1 and k2_ in fx.fns and fx.fns[k2_]["crate"] == "core2axcut" and "{" not in k2_ and _calls_lookup(k2_, depth + 1):
+                return True
+        return False
+    targets = {}
+    for k_, f_ in sorted(fx.fns.items()):
+        if f_["crate"] != "core2axcut" or "{" in k_ or k_.startswith("<"):
+            continue
+        hs = {rv_["adt"].split("::")[-1] for b_ in f_["blocks"] for s_ in b_["stmts"] for rv_ in [s_.get("rv") or {}]
+              if s_["k"] == "assign" and rv_.get("k") == "agg" and (rv_.get("adt") or "").endswith(("switch::Switch", "create::Create"))}
+        if len(hs) == 1 and _calls_lookup(k_):
+            targets.setdefault(hs.pop(), []).append(k_)
+    if sorted(targets) != ["Create", "Switch"] or any(len(v_) != 1 for v_ in targets.values()):
+        raise AnalysisError("R-DECLSRC: the functions that generate a match / a comatch from a declaration were not found (%s)" % {h_: len(v_) for h_, v_ in targets.items()})
+    for key in (targets["Switch"][0], targets["Create"][0]):
+        fn = Fn(fx.fns[key])
+        real_key = key
         flow = prov.make_flow(fn, fx, extra_names=())
-        holder = "switch::Switch" if key.endswith("unknown_cuts") else "create::Create"
+        holder = "switch::Switch" if key == targets["Switch"][0] else "create::Create"
         lst = [(s, r) for s, r in _agg_field_roots(fn, flow, holder, "clauses", fx=fx, stop_names=lookups)]
         # keep only those built by a map over a lookup (the integer special cases build literal vec![..])
         n_ok = 0
@@ -213,14 +237,14 @@ def rule_declsrc(ctx):
         # inside the clause-building closure: Clause.xtor and inner tag share their source; Clause.context and inner args share theirs
         found = False
         for ck, g in fx.fns.items():
-            if (g.get("parent") or "").split("::{")[0] != key or "{promoted" in ck:
+            if (g.get("parent") or "").split("::{")[0] != real_key or "{promoted" in ck:
                 continue
             cfn = Fn(g)
             cflow = prov.make_flow(cfn, fx, extra_names=("shrink_identifier", "shrink_context"))
             cl = [s for bi, si, s in cfn.stmts() if s["rv"]["k"] == "agg" and s["rv"].get("adt", "").endswith("statements::clause::Clause")]
             if not cl:
                 continue
-            inner_adt = "invoke::Invoke" if key.endswith("unknown_cuts") else "let::Let"
+            inner_adt = "invoke::Invoke" if key == targets["Switch"][0] else "let::Let"
             inner = [s for bi, si, s in cfn.stmts() if s["rv"]["k"] == "agg" and s["rv"].get("adt", "").endswith(inner_adt)]
             if not inner:
                 continue
@@ -232,12 +256,14 @@ def rule_declsrc(ctx):
             tag_ok = roots(crv, "xtor") == roots(irv, "tag")
             env_ok = roots(crv, "context") == roots(irv, "args")
             def _calls_fresh(k2, depth=0):
-                for _, t in Fn(fx.fns[k2]).calls():
-                    if is_fresh_call(ctx, t):
-                        return True
-                    k3 = t.get("resolved_key") or (t.get("callee_key") if not t.get("callee_trait") else None)
-                    if depth < 1 and k3 in fx.fns and fx.fns[k3]["crate"] == "core2axcut" and _calls_fresh(k3, depth + 1):
-                        return True
+                bodies_ = [k2] + [kc for kc, gc in fx.fns.items() if (gc.get("parent") or "").startswith(k2) and "{promoted" not in kc]
+                for kb in bodies_:
+                    for _, t in Fn(fx.fns[kb]).calls():
+                        if is_fresh_call(ctx, t):
+                            return True
+                        k3 = t.get("resolved_key") or (t.get("callee_key") if not t.get("callee_trait") else None)
+                        if depth < 2 and k3 in fx.fns and fx.fns[k3]["crate"] == "core2axcut" and k3 not in bodies_ and _calls_fresh(k3, depth + 1):
+                            return True
                 return False
             fresh = any(_calls_fresh(k2) for k2, g2 in fx.fns.items() if (g2.get("parent") or "").startswith(ck) or k2 == ck)
             for nm, okk, msg in (("tag", tag_ok, "the clause's xtor and the tag of the %s in its body come from different sources" % inner_adt.split("::")[-1]),
